@@ -291,7 +291,7 @@ func c16Expected(stmts []string) (eval, repl, file string, ok bool) {
 	s := impl.NewSession()
 	repl = "calc repl\n"
 	for _, src := range stmts {
-		pr := impl.Parse(src, impl.ParseFuel(len(src)))
+		pr := impl.ParseCached(src)
 		if pr.Err != "" || pr.Panic != "" || pr.FuelOut != "" {
 			return "", "", "", false
 		}
